@@ -14,6 +14,7 @@ could not see (made by eval()) later shadows the name — known finding STALE_LO
 engine by the check.  The model tags exactly those lookups [tag_iff_deviation].
 -/
 import ChaiVerif.Model.Chai.Eval
+import ChaiVerif.Lemmas.ChaiRunNh
 namespace ChaiVerif.C04
 open ChaiVerif.Chai
 
@@ -224,6 +225,44 @@ def staleLocal : St :=
 theorem stale_local_hint_counterexample :
     (staleLocal.getObject 3 7).1 = .cell 0 ∧ staleLocal.resolve 7 = .cell 1 ∧ staleLocal.verifySlot = true := by
   decide
+
+/-! ### whole evaluations: the cache is invisible unless a lookup is flagged -/
+
+/-- flagged lookups are never un-flagged: the count of tag 2 only grows along an evaluation -/
+theorem flagged_lookups_only_grow (ρ : List FunDef) (f : Nat) (j : Job) (s : St) : c2 s ≤ c2 (run ρ f j s).2 :=
+  (run_nh ρ f j s (c2 s) (Nat.le_refl _)).1
+
+/-- **Lookup caches are invisible, for every evaluation** (ninth induction over the evaluator, Lemmas/ChaiRunNh.lean): take any
+    job — statement sequence, function call, loop, catch-clause scan, `eval` of a text —, any fuel, any state (any stack of scopes,
+    any contents of the cache).  If no lookup of the evaluation is flagged (tag 2, which by `tag_iff_deviation` is recorded exactly
+    when a cached answer differs from the innermost live binding: the known finding STALE_LOOKUP_HINT), then the evaluation with the
+    cache emptied and switched off — every `get_object` then IS the specification `resolve` [`getObject_without_hints`] — has the
+    same outcome and ends in the same state except for the cache itself. -/
+theorem caches_invisible_unless_flagged (ρ : List FunDef) (f : Nat) (j : Job) (s : St)
+    (h : c2 (run ρ f j s).2 = c2 s) :
+    run ρ f j s.nh = ((run ρ f j s).1, (run ρ f j s).2.nh) := by
+  obtain ⟨_, hdev | heq⟩ := run_nh ρ f j s (c2 s) (Nat.le_refl _)
+  · omega
+  · exact heq
+
+/-- … in particular what the program printed, what it passed to the host's functions, its variables and its objects are those of
+    the cache-free evaluation -/
+theorem caches_invisible_observables (ρ : List FunDef) (f : Nat) (j : Job) (s : St) (h : c2 (run ρ f j s).2 = c2 s) :
+    (run ρ f j s.nh).1 = (run ρ f j s).1 ∧ (run ρ f j s.nh).2.out = (run ρ f j s).2.out ∧
+    (run ρ f j s.nh).2.natLog = (run ρ f j s).2.natLog ∧ (run ρ f j s.nh).2.stacks = (run ρ f j s).2.stacks ∧
+    (run ρ f j s.nh).2.globals = (run ρ f j s).2.globals ∧ (run ρ f j s.nh).2.heap = (run ρ f j s).2.heap ∧
+    (run ρ f j s.nh).2.objs = (run ρ f j s).2.objs := by
+  rw [caches_invisible_unless_flagged ρ f j s h]
+  exact ⟨rfl, rfl, rfl, rfl, rfl, rfl, rfl⟩
+
+/-- non-vacuity: a loop that looks the same name up through the same node three times (cold, then twice through its hint) is not
+    flagged, did use the cache, and agrees with the cache-free run -/
+example :
+    let prog : Job := .seq [.assignDecl 7 (.const 0), .cfor 8 0 3 (.block [.pre .inc (.id 3 7)]), .id 4 7]
+    let s : St := St.init [.int 0]
+    let r := run [] 40 prog s
+    c2 r.2 = c2 s ∧ r.2.hints.length = 2 ∧ r.2.val (match r.1 with | .val l => l | _ => 0) = .int 3 ∧
+    (run [] 40 prog s.nh).1 = r.1 ∧ (run [] 40 prog s.nh).2.objs = r.2.objs ∧ (run [] 40 prog s.nh).2.hints.length = 0 := by decide
 
 /-! ### non-vacuity -/
 example : HintValid { St.init [.int 1] with stacks := [[[(7, 0)]]], hints := [(3, .local_ 0 0)] } 3 7 := ⟨0, rfl⟩
